@@ -147,6 +147,9 @@ def r2_case_analysis(P, rep, ctx):
                 rep.check(ok, "C18.R2", fi.qual, f"cell {cell}: leaf comparison, no children", loc, construct=f"cell {cell}: returns {rets}, stores {sorted(stores)}", message=f"compare for {cell}: returns {rets}, fills {sorted(stores)} (expected: None iff equal else the node, no children)")
                 eqt = [t for t in g.nodes if t.idx in live and t.kind == "test" and norm(t.exprs[0]) in (f"{pv} == {cv}", f"{cv} == {pv}")]
                 okeq = bool(eqt) and all(all(norm(g.nodes[b].stmt.value) == "None" for b, l in g.succ[t.idx] if l == "T" and isinstance(g.nodes[b].stmt, ast.Return)) for t in eqt)
+                eq_edges = [(t.idx, "T") for t in eqt]
+                none_rets = [n for n in live if isinstance(g.nodes[n].stmt, ast.Return) and (g.nodes[n].stmt.value is None or norm(g.nodes[n].stmt.value) == "None")]
+                okeq = okeq and all(fx.hit_before(n, edges=eq_edges) for n in none_rets)
                 rep.check(okeq, "C18.R2", fi.qual, f"cell {cell}: 'no difference' iff prev == curr", loc, construct=f"cell {cell} equality", message=f"compare for {cell} does not return None exactly when prev == curr")
             elif pk != "dict" and ck == "dict":
                 ok = set(stores) == {"added"} and rets == ["ret"]
